@@ -124,6 +124,9 @@ func (pres *Presence) UnmarshalXML(d *xml.Decoder, start xml.StartElement) error
 					err = d.DecodeElement(&pres.Priority, &tt)
 				case "error":
 					err = d.DecodeElement(&pres.Error, &tt)
+				default:
+					// Unknown sub-element: skip it entirely, whatever it contains
+					err = d.Skip()
 				}
 				if err != nil {
 					return err
